@@ -59,11 +59,13 @@ static ll roundMs(ll us) { return floordiv(us + 500, 1000); }
 
 // the instant is given in microseconds (the double us / 1e6); `ms` below is the nearest millisecond (ties up), which is
 // what every field, every format and the FULL round trip must show
-static std::string instLineU(ll us, std::string& why)
+static std::string instLineCore(double t, ll ms, std::string& why);
+static std::string instLineU(ll us, std::string& why) { return instLineCore(us / 1000000.0, roundMs(us), why); }
+
+// `ms`: the millisecond instant that every observable of Date(t) must show
+static std::string instLineCore(double t, ll ms, std::string& why)
 {
 	why = "";
-	double t = us / 1000000.0;
-	ll ms = roundMs(us);
 	Date   d(t);
 	DateData p = d.splitUTC();
 	Date   mk(Date::UTC, p.year, p.month, p.day, p.hours, p.minutes, p.seconds);
@@ -79,7 +81,9 @@ static std::string instLineU(ll us, std::string& why)
 	civil_from_days(day, y, m, dd);
 	int hh = (int)(sod / 3600), mi = (int)(sod % 3600 / 60), ss = (int)(sod % 60);
 	int wd = (int)floormod(4 + day, 7);
-	{ double tr = t + 0.0005; if ((ll)floor(tr * (1 / 86400.0)) != day || (ll)floor(tr / 86400.0) != day) why += " fp-day"; }
+	{ double tr = floor(floor(t * 1000 + 0.5) / 1000);   // the floating-point steps of Date::calc that the model abstracts
+	  if (tr != (double)secs) why += " fp-round";
+	  if ((ll)floor(tr * (1 / 86400.0)) != day || (ll)floor(tr / 86400.0) != day) why += " fp-day"; }
 	if (p.year != y || p.month != m || p.day != dd) why += " date-fields";
 	if (p.hours != hh || p.minutes != mi || p.seconds != ss) why += " time-fields";
 	if (p.weekDay != wd) why += " weekday";
@@ -190,6 +194,32 @@ static std::string step(const Toks& t)
 		std::string why;
 		std::string l = instLineU(us, why);
 		return l + (why.empty() ? " or=ok" : " or=BAD:" + why);
+	}
+	if (op == "tieu" && t.size() == 2 && isInt(t[1])) {
+		// an instant at (or within the resolution of the double of) half a millisecond: either neighbouring millisecond is a
+		// correct rounding, but every field, every format and every round trip must show the SAME one
+		ll us = num(t[1]), lo = floordiv(us, 1000);
+		if (lo < MS_MIN || lo + 1 > MS_MAX) return "range";
+		double tt = us / 1000000.0;
+		ll rf = llround(Date(Date(tt).toUTCString(Date::FULL)).time() * 1000.0);
+		if ((rf != lo && rf != lo + 1) || llabs(rf * 1000 - us) > 560) return "BAD full-roundtrip " + str(rf);
+		std::string why;
+		instLineCore(tt, rf, why);
+		return why.empty() ? "ok" : "BAD" + why;
+	}
+	if (op == "rtp" && t.size() == 2) {
+		// parse, print FULL, parse again: the same instant to the millisecond
+		Exact e(unhex(t[1]));
+		String s(e.p, (int)e.n);
+		double t1 = Date(s).time();
+		if (t1 != t1) return "nan";
+		if (fabs(t1) > 9.0e15) return "range";
+		ll m1 = llround(t1 * 1000.0);
+		if (m1 <= MS_MIN || m1 >= MS_MAX) return "range";
+		String f = Date(t1).toUTCString(Date::FULL);
+		double t2 = Date(f).time();
+		if (!(fabs(t2 - t1) <= 0.00056)) return "BAD " + raw(f) + " " + tstr(t2) + " for " + tstr(t1);
+		return "ok";
 	}
 	if (op == "splitu" && t.size() == 2 && isInt(t[1])) {
 		ll us = num(t[1]);
